@@ -60,6 +60,21 @@ CHECKS = {
     'C34': ('round-trip PBT: generated introspection trees -> XML text -> model -> XML -> model',
             'Exploration: accessors of the parsed model equal the generated tree (independent writer with correct escaping, element kinds interleaved as the DTD allows) and write->read yields an equal value.',
             'Trusted: the harness\'s own XML writer/escaper.', '7/C34'),
+    'C16': ('bounded exhaustive enumeration of client transcripts + random transcripts with arbitrary read splits, validated against a reference SASL server automaton',
+            'Exploration, exhaustive within the stated bound: every transcript of up to 3/4 lines over 23 alternatives in 8 configurations, plus random long transcripts with splits and stray line endings; the server\'s reply words and completion must be a path of the (nondeterministic where the statement and the specification differ) reference automaton; no panic, no hang.',
+            'Trusted: refmodel::sasl; scripted socket through the public Socket traits and Builder::socket(..).server(..).p2p(). Malformed hex / identities may be answered by ERROR, REJECTED or by giving up.', '7/C16'),
+    'C17': ('PBT of the client handshake against scripted server replies with arbitrary read splits and trailing message bytes',
+            'Exploration: success iff proper OK + NEGOTIATE answer, fd capability iff AGREE_UNIX_FD (observed by sending an fd), trailing bytes delivered first and byte-identical; no panic, no hang.',
+            'Trusted: refmodel::sasl::client_expect. The expected-GUID route needs a real listening socket and is not exercised.', '7/C17'),
+    'C18': ('schedule-exploring PBT: harness-owned single-threaded scheduler + scripted transport with generated partial writes',
+            'Exploration over schedules: concurrent senders under generated task interleavings and write splits; the captured stream must frame into exactly the sent messages, per-sender order kept, fds with the first bytes only.',
+            'Trusted: the scheduler polls zbus futures and ticks the connection executor itself (internal_executor(false)); no threads are involved, so a schedule byte string reproduces the run.', '6, 7/C18'),
+    'C19': ('schedule- and history-exploring PBT with a fake peer (reply permutations, delays, noise, transport end)',
+            'Exploration over schedules and peer behaviours: each call completes exactly once with its own reply / error / transport error; hang = quiescence with a pending call.',
+            'Trusted: scheduler and fake peer (reference message builder). The method_timeout path (real-time timer) is not exercised.', '6, 7/C19'),
+    'C20': ('model-based PBT over stream histories (create / clone / drop / incoming / poll) under generated schedules and small queues',
+            'Exploration over histories: per-stream model queues vs what each stream yields; shared subscriptions survive the drop of one stream.',
+            'Trusted: scheduler; streams are kept polled while messages are taken in (the property\'s proviso).', '6, 7/C20'),
 }
 
 NOT_YET = {}
